@@ -340,16 +340,21 @@ class Canon:
         if self._refs is not None:
             return
         refs, defs = {}, {}
+        bare = {}   # references by bare name only (a method is not reached that way: a nested function of the same name is another thing)
         for m in self.p.modules.values():
             for n in ast.walk(m.tree if hasattr(m, "tree") else m.node):
                 if isinstance(n, ast.Attribute):
                     refs[n.attr] = refs.get(n.attr, 0) + 1
                 elif isinstance(n, ast.Name) and isinstance(n.ctx, ast.Load):
                     refs[n.id] = refs.get(n.id, 0) + 1
+                    bare[n.id] = bare.get(n.id, 0) + 1
                 elif isinstance(n, ast.Constant) and isinstance(n.value, str) and n.value.isidentifier():
                     refs[n.value] = refs.get(n.value, 0) + 1  # getattr(self, "name") style
         for f in self.p.all_functions():
             defs.setdefault(f.name, []).append(f)
+        for f in self.p.all_functions():
+            if f.cls is not None and f.name.startswith("_") and len(defs.get(f.name, [])) == 1 and bare.get(f.name):
+                refs[f.name] = refs.get(f.name, 0) - bare[f.name]
         self._refs, self._defs = refs, defs
         EFFECT_ATTRS.clear()
         for f in self.p.all_functions():
@@ -387,7 +392,7 @@ class Canon:
         if any(isinstance(x, (ast.Yield, ast.YieldFrom, ast.Await, ast.Global, ast.Nonlocal)) for x in ast.walk(h.node)):
             return None
         n_stmts = sum(1 for b in _strip_doc(h.node.body) for x in ast.walk(b) if isinstance(x, ast.stmt))   # (the docstring does not count)
-        if self._refs.get(name, 0) > 1 and n_stmts > (10 if self._refs.get(name, 0) == 2 else (6 if self._refs.get(name, 0) <= 4 else 3)):
+        if self._refs.get(name, 0) > 1 and n_stmts > (25 if self._refs.get(name, 0) == 2 else (6 if self._refs.get(name, 0) <= 4 else 3)):
             return None  # a helper shared by several callers is only written out when it is small
         return h
 
@@ -507,7 +512,9 @@ class Canon:
             h = self.helper(f, call) if call is not None else None
             if h is None:
                 st = self._inline_exprs(f, st, depth)
-                hoisted = self._hoist_arg(f, st) if mode in ("expr", "assign", "return") else self._comp_to_loop(f, st)
+                hoisted = self._hoist_arg(f, st) if isinstance(st, (ast.Expr, ast.Assign, ast.Return, ast.AugAssign)) and not isinstance(getattr(st, "value", None), ast.ListComp) else None
+                if hoisted is None:
+                    hoisted = self._comp_to_loop(f, st)
                 if hoisted is not None:
                     out.extend(self._inline_block(f, hoisted, depth))
                 else:
@@ -524,33 +531,82 @@ class Canon:
         return out
 
     def _hoist_arg(self, f, st):
-        """`g(self._helper(..), b)` -> `_arg__helper = self._helper(..); g(_arg__helper, b)` when the helper is one that is written out and nothing with an effect is evaluated
-        before it (the helper call then is a statement of its own and the ordinary rule applies)"""
-        outer = st.value
-        if not (isinstance(outer, ast.Call) and _is_pure(outer.func)):
-            return None
-        slots = [(outer.args, i) for i in range(len(outer.args))] + [(k, None) for k in outer.keywords]
-        for holder, i in slots:
-            a = holder[i] if i is not None else holder.value
-            if isinstance(a, ast.Call) and self.helper(f, a) is not None and not isinstance(a, ast.Starred):
-                h = self.helper(f, a)
-                bl = _Blocks()
-                bl.try_else = True
-                if not _returns_in_tail(bl.block(_strip_doc(copy.deepcopy(h.node).body), "func")):
+        """`g(self._helper(..), b)` / `self._helper(..) - t` / `self._helper(..).x`  ->  `_arg__helper = self._helper(..)` followed by the statement with the local in its place,
+        when the helper is one that is written out and nothing with an effect is evaluated before it (the helper call then is a statement of its own and the ordinary rule
+        applies)"""
+        canon = self
+
+        def first(e):
+            """the first helper call in evaluation order, or None if something impure / lazily evaluated comes first"""
+            if isinstance(e, ast.Call):
+                if canon.helper(f, e) is not None:
+                    return e
+                if isinstance(e.func, ast.Attribute):
+                    r = first(e.func.value)
+                    if r is not None or not _is_pure(e.func.value):
+                        return r
+                elif not _is_pure(e.func):
                     return None
-                self._k["arg " + h.name] = self._k.get("arg " + h.name, 0) + 1
-                k = self._k["arg " + h.name]
-                name = "_arg__%s%s" % (h.name.lstrip("_"), "" if k == 1 else "_%d" % k)
-                tmp = ast.copy_location(ast.Assign(targets=[ast.Name(id=name, ctx=ast.Store())], value=a, lineno=st.lineno), st)
-                ref = ast.copy_location(ast.Name(id=name, ctx=ast.Load()), a)
-                if i is not None:
-                    holder[i] = ref
-                else:
-                    holder.value = ref
-                return [tmp, st]
-            if isinstance(a, ast.Starred) or (i is None and holder.arg is None) or not _is_pure(a):
+                for a in list(e.args) + [k.value for k in e.keywords]:
+                    if isinstance(a, ast.Starred):
+                        return None
+                    r = first(a)
+                    if r is not None or not _is_pure(a):
+                        return r
                 return None
-        return None
+            if isinstance(e, ast.BinOp):
+                r = first(e.left)
+                if r is not None or not _is_pure(e.left):
+                    return r
+                return first(e.right)
+            if isinstance(e, ast.UnaryOp):
+                return first(e.operand)
+            if isinstance(e, ast.Attribute):
+                return first(e.value)
+            if isinstance(e, ast.Subscript):
+                r = first(e.value)
+                if r is not None or not _is_pure(e.value):
+                    return r
+                return first(e.slice)
+            if isinstance(e, (ast.Tuple, ast.List)):
+                for x in e.elts:
+                    if isinstance(x, ast.Starred):
+                        return None
+                    r = first(x)
+                    if r is not None or not _is_pure(x):
+                        return r
+                return None
+            if isinstance(e, ast.Compare):
+                r = first(e.left)
+                if r is not None or not _is_pure(e.left) or len(e.comparators) != 1:
+                    return r
+                return first(e.comparators[0])
+            return None
+
+        outer = st.value
+        if outer is None or (isinstance(outer, ast.Call) and self.helper(f, outer) is not None):
+            return None
+        a = first(outer)
+        if a is None:
+            return None
+        h = self.helper(f, a)
+        bl = _Blocks()
+        bl.try_else = True
+        if not _returns_in_tail(bl.block(_strip_doc(copy.deepcopy(h.node).body), "func")):
+            return None
+        self._k["arg " + h.name] = self._k.get("arg " + h.name, 0) + 1
+        k = self._k["arg " + h.name]
+        name = "_arg__%s%s" % (h.name.lstrip("_"), "" if k == 1 else "_%d" % k)
+        tmp = ast.copy_location(ast.Assign(targets=[ast.Name(id=name, ctx=ast.Store())], value=a, lineno=st.lineno), st)
+
+        class Rep(ast.NodeTransformer):
+            def visit_Call(self, n):
+                if n is a:
+                    return ast.copy_location(ast.Name(id=name, ctx=ast.Load()), n)
+                return self.generic_visit(n)
+
+        st.value = Rep().visit(st.value)
+        return [tmp, st]
 
     def _comp_to_loop(self, f, st):
         """`x = [self._helper(v) for v in it]` / `x += [...]`  ->  `x = []` / nothing, then `for v in it: x.append(self._helper(v))` when the helper is one that is written
@@ -589,7 +645,8 @@ class Canon:
         """recurse into compound statements"""
         for fld in ("body", "orelse", "finalbody"):
             b = getattr(st, fld, None)
-            if isinstance(b, list) and b and isinstance(b[0], ast.stmt) and not isinstance(st, (ast.FunctionDef, ast.ClassDef)):
+            if isinstance(b, list) and b and isinstance(b[0], ast.stmt) and not isinstance(st, ast.ClassDef):
+                # (a nested function calls helpers of the same object: its body is read the same way)
                 setattr(st, fld, self._inline_block(f, b, depth))
         if isinstance(st, ast.Try):
             for h in st.handlers:
